@@ -14,7 +14,7 @@ from mc import util
 ID = 'C08'
 LEVEL = 'exploration'
 RULE = ('scope trees = every list of up to N binding/reading constructs (assign, augassign, read, del, global, nonlocal, '
-        'import, import-as, with-as, except-as, for target, attribute/subscript target, slice bounds, tuple index, slice store, walrus, annotated assignment, '
+        'import, import-as, with-as, except-as, for target, attribute/subscript target, slice bounds, tuple index, slice store, f-string format spec, walrus, annotated assignment, '
         'comprehension, nested def with each parameter kind / default / annotation / decorator, lambda, class) over the names '
         '{a, b}, nested to depth 3; programs that CPython rejects are skipped; oracle = symtable per function scope and the '
         'bytecode of each statement line; distinct_nontrivial = distinct accepted programs with a nested scope')
@@ -25,8 +25,8 @@ ASSUMPTIONS = ['comprehension targets and except-clause names are excluded (prop
 
 NAMES = ('a', 'b')
 SIMPLE = ('assign', 'aug', 'read', 'del', 'global', 'nonlocal', 'import', 'importas', 'fromimport', 'withas', 'exceptas',
-          'for', 'attr', 'sub', 'walrus', 'annassign', 'anndecl', 'compt', 'compr', 'compself', 'tuple', 'slice', 'tupidx', 'slicestore')
-PARAMS = ('pos', 'posonly', 'vararg', 'kwonly', 'kwarg', 'default', 'anno', 'deco', 'none')
+          'for', 'attr', 'sub', 'walrus', 'annassign', 'anndecl', 'compt', 'compr', 'compself', 'tuple', 'slice', 'tupidx', 'slicestore', 'fspec')
+PARAMS = ('pos', 'posonly', 'vararg', 'kwonly', 'kwarg', 'default', 'kwdefault', 'anno', 'deco', 'none')
 _S = {'tier': 'quick'}
 MAXN = {'quick': 3, 'thorough': 4}
 
@@ -122,6 +122,8 @@ def emit(body, ind, lines, ctr):
       lines.append(pad + '%s.attr = %d' % (n, c))
     elif k == 'sub':
       lines.append(pad + '%s[0] = %d' % (n, c))
+    elif k == 'fspec':
+      lines.append(pad + "u(f'{p:>{%s}}')" % n)
     elif k == 'slice':
       lines.append(pad + 'u(p[%s:%s:%s])' % (n, n, n))
     elif k == 'tupidx':
@@ -149,7 +151,7 @@ def emit(body, ind, lines, ctr):
     elif k == 'def':
       pk, n, b = s[1], s[2], s[3]
       sig = {'pos': '%s' % n, 'posonly': '%s, /' % n, 'vararg': '*%s' % n, 'kwonly': '*, %s' % n, 'kwarg': '**%s' % n,
-             'default': 'z=%s' % n, 'anno': 'z: %s' % n, 'deco': '', 'none': ''}[pk]
+             'default': 'z=%s' % n, 'kwdefault': '*, z=%s' % n, 'anno': 'z: %s' % n, 'deco': '', 'none': ''}[pk]
       if pk == 'deco':
         lines.append(pad + '@%s' % n)
       lines.append(pad + 'def g%d(%s):' % (c, sig))
